@@ -35,4 +35,6 @@ VARIANTS = [
     V("N-trailing-test-nested-guard", "src/soundevent/arrays/dimensions.py", "    if coords.size > 0 and coords[-1] >= stop - step / 2:\n        coords = coords[:-1]\n", "    if coords.shape[0] > 0:\n        if coords[-1] >= stop - step / 2:\n            coords = coords[:-1]\n", None),
     V("trailing-test-guard-vacuous", "src/soundevent/arrays/dimensions.py", "    if coords.size > 0 and coords[-1] >= stop - step / 2:", "    if coords.size >= 0 and coords[-1] >= stop - step / 2:", "R16.5"),
     V("N-trailing-test-guard-ne", "src/soundevent/arrays/dimensions.py", "    if coords.size > 0 and coords[-1] >= stop - step / 2:", "    if coords.size != 0 and coords[-1] >= stop - step / 2:", None),
+    V("trailing-test-against-start", "src/soundevent/arrays/dimensions.py", "coords[-1] >= stop - step / 2", "coords[-1] >= start - step / 2", "R16.1"),
+    V("N-upper-clamp-by-len-of-index", "src/soundevent/arrays/dimensions.py", "        return arr.sizes[dim]\n", "        return len(arr.indexes[dim])\n", None),
 ]
